@@ -13,15 +13,15 @@ META = {
     "harness_bins": ["c10"],
     "extract": "C10.v",
     "technique": "Coq proofs of panic-freedom for modelled cores in which every unwrap / expect / panic! / assert! / unchecked subtraction / panicking library call of the mirrored Rust is an explicit Panic outcome (number primops, index arithmetic of string and array primops, the lexer's mode automaton, span arithmetic of error conversion, name generation for type errors), tied to the code by differential runs of the extracted models; a generated ledger of every panic-capable site of the functions mirrored by any model; the whole pipeline is only SAMPLED: every stage of the public API under catch_unwind in a worker subprocess (signal = crash) on grammar-generated programs, mutations of the repository's files and random bytes, with every diagnostic label checked against its file",
-    "level_text": "proof (partial). PROVED in Coq for every input of the core (coq/Props/C10.v, 37 theorems, closed under the global context): "
+    "level_text": "proof (partial). PROVED in Coq for every input of the core (coq/Props/C10.v, 39 theorems, closed under the global context): "
                   "(a) number primops Div, Modulo, Pow (three-way split, for every float conversion and every powf), the f64-based unary ops, arctan2 and log never reach a panicking call of the arithmetic library: division by zero and zero to a negative power are structured errors; C10_pow_unguarded_panics_iff says exactly which inputs the guard of commit c4c4d42 excludes; "
                   "(b) index arithmetic: NickelString::substring (usize casts, checked subtraction), array/slice (the assertions of Slice::slice), array/at (get(n).unwrap()), array/generate never panic; the grapheme-index look-up of std.string.find/find_all as it was before commit c9daf53 is REFUTED (C10_find_all_index_panics_iff: exactly for a match starting at the end of the subject) and the current code is proved panic-free; "
                   "(c) the modal lexer's automaton (mode stack, brace counter, %-count arithmetic, one-token buffer) over arbitrary sequences of raw tokens: every input is consumed into tokens or structured lexical errors, none of the 11 panic sites of enter_*/leave_*/bufferize/... is reachable, the mode stack is never popped when empty or at the wrong mode (invariant: modes alternate); "
                   "(d) span arithmetic: every span built by ParseError::from_lexical / from_lalrpop, by the split of a candidate interpolation and by RawSpan::fuse lies within [0, len] with start <= end (sources < 4 GiB because of the u32 casts); the escape-sequence span of the code before 62096ac is REFUTED for char boundaries and the JSON/TOML error spans before fa9c5c0 are REFUTED for the range; the current conversions are proved (from_lexical_fixed; external_error_span: in range, on char boundaries, non-empty before EOF); "
                   "(e) NameReg::select_uniq (type error reporting) as it was before 26454e7 is REFUTED for termination (diverges when candidate and candidate1 are taken), the current loop terminates on every finite registry with a free name; pretty_print_cap before 03ad279 and the lone-carriage-return assertion before 4ff7631 are refuted with witnesses, the current code proved panic-free (these nine defects were found by this check and repaired in /repo: known_findings.txt); "
-                  "(f) the panic-site ledger: C10_sites_all_covered / C10_ledger_no_stale - each of the ~180 panic-capable sites (unwrap, expect, panic!, unreachable!, unimplemented!, assert!, debug_assert!, indexing, integer casts; for C10's own cores also unsigned subtractions and panicking library calls) in the functions mirrored by a model (vector, slice, resolve, version, lock, merge, contract_eq, nls world, eval stack, lazy thunks, lexer, parser error conversion, reporting, string primops, the modelled arms of operation.rs) is mapped to a theorem of coq/Crash (checked term), to a theorem of another property by name (existence checked), or to an explicit Unproved entry (a known-defect entry kind with a refuting lemma exists for reachable sites; none at present); the list is regenerated from /repo on every run and a site that appears, disappears or moves breaks the theorems. "
+                  "(f) merge_fields' value selection by priority never reaches its unreachable!() arm (the hand-written == and > of MergePriority agree and are antisymmetric); (g) the panic-site ledger: C10_sites_all_covered / C10_ledger_no_stale - each of the ~180 panic-capable sites (unwrap, expect, panic!, unreachable!, unimplemented!, assert!, debug_assert!, indexing, integer casts; for C10's own cores also unsigned subtractions and panicking library calls) in the functions mirrored by a model (vector, slice, resolve, version, lock, merge, contract_eq, nls world, eval stack, lazy thunks, lexer, parser error conversion, reporting, string primops, the modelled arms of operation.rs) is mapped to a theorem of coq/Crash (checked term), to a theorem of another property by name (existence checked), or to an explicit Unproved entry (a known-defect entry kind with a refuting lemma exists for reachable sites; none at present); the list is regenerated from /repo on every run and a site that appears, disappears or moves breaks the theorems. "
                   "NOT PROVED: crash-freedom of the whole pipeline over all byte strings. It is validated by sampling only: quick tier about 5 000 inputs, thorough about 300 000 (grammar-generated well-typed / ill-typed / ill-formed programs, token- and byte-level mutations of about 900 repository files, constructs nested 200 deep on an 8 MiB stack, random bytes incl. invalid UTF-8), each through lexing, strict and tolerant parsing, typechecking (both modes), evaluation with a step budget, export to every format, query, record-spine evaluation, pretty-printing and rendering of every error, in a worker process whose death by signal is a finding. Absence of findings there is not the universal claim.",
-    "level_note": "Trusted: Coq kernel; extraction (ExtrOcamlBasic + ExtrOcamlNativeString); the hand-written models' reading of operation.rs, term/string.rs, lexer.rs, parser error.rs, reporting.rs (tied by differential runs: primop cores ~1500/40000 cases, lexer automaton 700/20000 sources step by step with raw tokens obtained independently from the logos sub-lexers, lexical-error and split spans against the parser's own errors); the syntactic site translator; the harness (catch_unwind + supervisor; gdb only to name the repeating frames of a stack overflow or a hang). "
+    "level_note": "Trusted: Coq kernel; extraction (ExtrOcamlBasic + ExtrOcamlNativeString); the hand-written models' reading of operation.rs, term/string.rs, lexer.rs, parser error.rs, reporting.rs (tied by differential runs: primop cores and the merge priority selection ~1500/40000 cases, lexer automaton 700/20000 sources step by step with raw tokens obtained independently from the logos sub-lexers, lexical-error and split spans against the parser's own errors); the syntactic site translator; the harness (catch_unwind + supervisor; gdb only to name the repeating frames of a stack overflow or a hang). "
                   "Modelled, not verified: floats are abstract (theorems hold for every float function); logos regex matching, LALRPOP tables, malachite, serde/toml/saphyr, codespan rendering are not modelled; usize overflow of counters at 2^64 is out of reach of inputs that fit in memory and not modelled. "
                   "Delegated ledger entries rest on the other properties' theorems (C17, C18, C19, C20, C04, C16) by name. Not compiled into the harness: cargo features doc (markdown rendering; the evaluation part eval_record_spine is exercised), repl (query printing is reproduced by calling PrettyPrintCap as the CLI does), format, nix-experimental. "
                   "Resource exhaustion inside evaluation stages under the step budget (e.g. %pow% 2 1e12, array/generate 4e9) is counted in the evidence and not reported as a violation; in the parser and typechecker it is. The debug profile is deliberate (debug assertions and overflow checks are observed).",
@@ -473,7 +473,13 @@ def ops_cases(rng, n):
     """[(model case, nickel program, kind)]"""
     out = []
     for _ in range(n):
-        k = rng.weighted([("div", 3), ("mod", 3), ("pow", 5), ("substr", 5), ("slice", 5), ("at", 4), ("gen", 2), ("findall", 4)])
+        k = rng.weighted([("div", 3), ("mod", 3), ("pow", 5), ("substr", 5), ("slice", 5), ("at", 4), ("gen", 2), ("findall", 4), ("prio", 3)])
+        if k == "prio":
+            ps = [("| default", "B"), ("", "N"), ("| force", "T"), ("| priority 0", "0"), ("| priority 1", "1"), ("| priority -1", "-1"),
+                  ("| priority 0.5", "1/2"), ("| priority -0.5", "-1/2"), ("| priority 1e20", "1" + "0" * 20), ("| priority 0.0", "0")]
+            (a, qa), (b, qb) = rng.choice(ps), rng.choice(ps)
+            out.append(("prio %s %s" % (qa, qb), "({x %s = 1} & {x %s = 2}).x" % (a, b), k))
+            continue
         if k in ("div", "mod"):
             (a, qa), (b, qb) = rng.choice(RATS), rng.choice(RATS)
             out.append(("num %s %s %s" % (k, qa, qb), "%s %s %s" % (a, "/" if k == "div" else "%", b), k))
@@ -524,6 +530,8 @@ def rust_ops_outcome(kind, line):
     if kind == "slice":
         nums = re.findall(r"#(-?\d+)", body)
         return "VAL " + (".".join(nums) or "-")
+    if kind == "prio":
+        return {"#1": "VAL left", "#2": "VAL right"}.get(body, "VAL " + body)
     if kind in ("at", "gen"):
         return "VAL " + body.lstrip("#")
     if kind == "findall":
@@ -559,6 +567,12 @@ def correspond_ops(ck, exe_model, n):
             continue
         mclass = m.split(" ")[0]
         ck.hist("ops_model_outcome", kind + ":" + mclass)
+        if kind == "prio":
+            # equal priorities: both values are merged, 1 & 2 is a (structured) non-mergeable error
+            okp = (m == "VAL both" and r.startswith("ERR NonMergeable")) or (m == rv)
+            if not okp:
+                ck.obligation("correspondence:merge_fields-selection", "correspondence", False, "%s: model %s, impl %s" % (prog, m, r))
+            continue
         if rv == "PANIC":
             ck.violation("panic:primop:" + kind, "primop panicked: %s" % prog, {"case": case_line("ncl", prog.encode()), "input": prog, "model": m, "impl": r})
             continue
